@@ -443,7 +443,7 @@ class Rmcp(object):
         msg = IpmiMsg(ignore_sdu_length=ignore_sdu_length)
         data = msg.unpack(pdu)
         log().debug('IPMI RX: {:s}'.format(
-            ' '.join('%02x' % b for b in array('B', data))))
+            ' '.join('%02x' % b for b in array('B', data or b''))))
         return data
 
     def _send_asf_msg(self, msg):
